@@ -13,3 +13,5 @@ import GoFlags.Props.C02
 #print axioms GoFlags.C02.parseShortLoop_cluster
 #print axioms GoFlags.C02.flatMap_encodeRune_length
 #print axioms GoFlags.C02.cluster_is_its_flags_in_order
+#print axioms GoFlags.C02.facts_option_style
+#print axioms GoFlags.C02.facts_model_uses_the_delimiters
